@@ -18,6 +18,8 @@ var c09Values = []string{"x1", "x2", "y", "xx", "Xx", "X", "", "zxz", " x "}
 type C09Case struct {
 	FlowCase
 	AccInc map[int]int `json:"acc_inc,omitempty"`
+	// Recycled: the same request is served once before on the same WAF (pooled transaction object reused)
+	Recycled bool `json:"recycled,omitempty"`
 }
 
 func genC09Actions(t *rapid.T, r *Rule, allowAcc bool, accInc map[int]int, topID int) {
@@ -142,6 +144,7 @@ func genC09(t *rapid.T) *C09Case {
 	}
 	c.RS.Items = items
 	c.RS.Pre = c.Cfg.PreLines()
+	c.Recycled = rapid.IntRange(0, 2).Draw(t, "recycled") == 0
 	c.Req = Req{Method: "GET", Path: "/p", Headers: []KV{{"h", rapid.SampledFrom(c09Values).Draw(t, "hv")}}}
 	na := rapid.IntRange(0, 6).Draw(t, "nargs")
 	for i := 0; i < na; i++ {
@@ -185,6 +188,15 @@ func checkC09(c *C09Case) Result {
 		return res
 	}
 	defer closeWAF(w)
+	if c.Recycled {
+		// the counters are those of THIS transaction: the same request has just been served (and closed) on the
+		// same WAF, so the transaction under test runs on a recycled object
+		if _, f := runCanonical(w, &c.Req); f != nil {
+			res.Fail = f
+			return res
+		}
+		res.Labels = append(res.Labels, "on-recycled-transaction")
+	}
 	got, f := runCanonical(w, &c.Req)
 	if f != nil {
 		res.Fail = f
